@@ -35,8 +35,6 @@ def build(m):
                        # what the code's fourth outcome means
                        '(result == 3) == (not (x.end <= y.start) and not INSIDE_GROUP(x, y) and x.parse_end <= y.start and y.end <= x.end)',
                        'result == 0 or result == 1 or result == 2 or result == 3',
-                       # the statement knows three outcomes only: "otherwise the candidates conflict"
-                       ('result != 3', 'C16'),
                    ], prop=P))
     # ghost rank: position of the candidate in the sorted candidate list.  RANKED: children always
     # have a larger rank than their parent (so the child relation is acyclic and a call on a token
